@@ -422,6 +422,47 @@ func (g *gen) mutate(s *gSchema, o mutateOpts, c *ctx) *gSchema {
 			}
 			dropColumnFromTable(t, cn)
 			c.count("edit_drop_fk_column")
+		case k == 13 && o.indexes && o.redefineIndex && len(t.Idx) > 0: // an index keeps its name, moves to another column, and all its old columns are dropped
+			p := g.rng.Intn(len(t.Idx))
+			ix := t.Idx[p]
+			inIx := map[string]bool{}
+			for _, cn := range ix.Cols {
+				inIx[cn] = true
+			}
+			var cand []string
+			for _, cc := range t.Cols {
+				if !inIx[cc.Name] && cc.Typ != "text" && cc.Typ != "longtext" && cc.Typ != "json" && cc.Typ != "BLOB" {
+					cand = append(cand, cc.Name)
+				}
+			}
+			droppable := len(cand) > 0
+			for _, cn := range ix.Cols {
+				if n.referenced(t.Name, cn) {
+					droppable = false
+				}
+				for _, pk := range t.Pk {
+					if pk == cn {
+						droppable = false
+					}
+				}
+				for _, cc := range t.Cols {
+					if cc.Name == cn {
+						for _, op := range cc.Opts {
+							if op.Kind == "pk" {
+								droppable = false
+							}
+						}
+					}
+				}
+			}
+			if !droppable {
+				continue
+			}
+			for _, cn := range ix.Cols {
+				dropColumnFromTable(t, cn)
+			}
+			t.Idx = append(t.Idx, gIndex{Name: ix.Name, Cols: []string{cand[g.rng.Intn(len(cand))]}, Unique: ix.Unique, Using: ix.Using})
+			c.count("edit_move_index")
 		case k < 13 && o.dropTables: // drop table
 			if n.referenced(t.Name, "") {
 				continue
